@@ -178,6 +178,17 @@ def observe(outdir, n, ref):
     return man, files
 
 
+def all_events(trace):
+    out = []
+    if os.path.exists(trace):
+        for l in open(trace):
+            try:
+                out.append(json.loads(l))
+            except ValueError:
+                pass
+    return out
+
+
 def main_events(trace, pid):
     out = []
     if os.path.exists(trace):
@@ -207,15 +218,24 @@ def _experiment(run, root, n, ref, schedule, workers, tid):
     shutil.rmtree(outdir)
     events = []
     ok = True
+    listed_before = []
     for step, crash in enumerate(list(schedule) + [None]):
         trace = os.path.join(root, "trace_%d_%d.ndjson" % (tid, step))
         pid, st = run_tool(root, outdir, workers, crash=crash, trace=trace)
         evs = main_events(trace, pid)
+        # "neither recomputed nor rewritten": no process of this run (main or loader worker) reads, processes or saves an
+        # utterance the manifest listed when the run began (the manifest as it was on disk, not the tool's own account)
+        again = sorted({e["utt"] for e in all_events(trace)
+                        if e.get("utt") in listed_before and e.get("event") in ("read", "pre", "compute", "raw_column", "post", "save_begin")})
+        if again:
+            run.violation({"kind": "listed_utterance_recomputed", "utts": again, "listed_when_the_run_began": listed_before,
+                           "schedule": schedule, "workers": workers, "run": step})
         man, files = observe(outdir, n, ref)
         if any(u not in NAMES[:n] for u in man):
             run.violation({"kind": "manifest_line_is_not_an_utterance_id", "manifest": man, "naming": dict(NAMING), "schedule": schedule})
             ok = False
             man = [u for u in man if u in NAMES[:n]]
+        listed_before = list(man)
         crashed = not (os.WIFEXITED(st) and os.WEXITSTATUS(st) == 0)
         run.evaluations += 1
         started = [e for e in evs if e["event"] == "start"]
